@@ -248,9 +248,14 @@ def h_shape(sp, max_procs=2, max_ents=2, max_comps=2, routes=2, small_ids=False,
                 fn = os.path.join(tmp, 'world.json')
                 with open(fn, 'w') as f:
                     json.dump(descr, f)
+                # another handle of the same class, customised by its owner before ours is used: its extra transform
+                # function must not leak into the world our handle loads
+                other = WorldFromFileHandle(fn)
+                other.transform_functions.append(lambda h, world: world.add_processor(reg.ProcB('leaked')))
                 handle = WorldFromFileHandle(fn)
                 attach_handle(root, handle, 0)
                 w = root['w']
+                sp.cover('customised-sibling-handle')
                 sp.check(w is handle(), 'cached', 'the handle loads a different world on second access')
             else:
                 handle = WorldHandle()
@@ -444,7 +449,7 @@ def h_strings_replay(sp, fname='', text=''):
 
 HARNESSES = {
     'shape': dict(fn=h_shape, nontrivial=['processors', 'explicit-id', 'auto-id', 'callbacks', 'falsy-id'],
-                  required=['processors', 'explicit-id', 'auto-id', 'callbacks', 'falsy-id', 'generator-id', 'second-world']),
+                  required=['processors', 'explicit-id', 'auto-id', 'callbacks', 'falsy-id', 'generator-id', 'second-world', 'customised-sibling-handle']),
     'args': dict(fn=h_args, nontrivial=['kind-obj', 'kind-res', 'kind-handle', 'kind-mid-marker', 'kind-plain', 'kind-list'],
                  required=['kind-int', 'kind-obj', 'kind-obj-nested', 'kind-obj-zero', 'kind-obj-none', 'kind-obj-empty', 'kind-res', 'kind-res1', 'kind-handle', 'kind-mid-marker',
                            'kind-plain', 'kind-list', 'kind-dict', 'kind-none', 'res-through-composite-key',
